@@ -165,6 +165,25 @@ def kernel_job(args):
     return out
 
 
+ENSEMBLE = 3        # runs per free-running call
+
+
+def parallel_leg(quick):
+    """ensembles from solve_stochast(parallel=True), in a process of their own (dask spawns workers)"""
+    import json
+    import os
+    import subprocess
+    jobs = [["chain3", 6, [1.0, 1.5], 1.0, True, 12], ["sir", 5, [0.5, 0.3], 3.0, True, 8]]
+    if not quick:
+        jobs += [["chain3", 4, [0.4, 2.0], 2.5, True, 130], ["sir", 4, [1.3, 0.9], 2.0, True, 24], ["chain3", 6, [1.0, 1.5], 1.0, False, 8]]
+    r = subprocess.run([sys.executable, "-W", "ignore", "-m", "checks._c05par", json.dumps(jobs)], cwd=env.VERIF,
+                       stdout=subprocess.PIPE, stderr=subprocess.STDOUT, text=True, env=dict(os.environ))
+    for line in r.stdout.splitlines():
+        if line.startswith("RESULT "):
+            return json.loads(line[7:])
+    raise report.HarnessError("parallel ensemble helper produced no result:\n" + r.stdout[-1500:])
+
+
 class Recorder(sched.Sched):
     """passes every draw to the true generator and records it (conformance replay)"""
 
@@ -201,21 +220,32 @@ def conformance_job(args):
         try:
             np.random.exponential, np.random.poisson = rec.exponential, rec.poisson
             with contextlib.redirect_stdout(io.StringIO()):
-                X, J, TT = m.solve_stochast(T, 1, exact=(mode[0] == "exact"), full_output=True)
+                X, J, TT = m.solve_stochast(T, ENSEMBLE, exact=(mode[0] == "exact"), full_output=True)
         except Exception as e:
             out["runs"] += 1
             out["violations"].append({"what": "free-run:raised", "seed": sd, "detail": "%s: %s" % (type(e).__name__, e)})
             continue
         finally:
             np.random.exponential, np.random.poisson = saved
-        out["runs"] += 1
-        out["steps"] += len(TT[0]) - 1
-        try:
-            mm = stoch.check_raw_path(rs, x0, 0.0, T, mode[0] == "exact", (X[0], J[0], TT[0]), rec.log, pre_tau=cfg.pre_tau())
-        except stoch.Skip:
-            mm = None
-        if mm is not None:
-            out["violations"].append({"what": "free-run:" + mm.what, "seed": sd, "detail": mm.detail})
+        # the runs of one serial ensemble consume consecutive, disjoint stretches of the draw stream
+        pos = 0
+        if len(TT) != ENSEMBLE:
+            out["violations"].append({"what": "free-run:number-of-runs", "seed": sd, "detail": len(TT)})
+            continue
+        for k in range(ENSEMBLE):
+            out["runs"] += 1
+            out["steps"] += len(TT[k]) - 1
+            used = []
+            try:
+                mm = stoch.check_raw_path(rs, x0, 0.0, T, mode[0] == "exact", (X[k], J[k], TT[k]), rec.log[pos:], pre_tau=cfg.pre_tau(),
+                                          partial=(k < ENSEMBLE - 1), used=used)
+            except stoch.Skip:
+                mm = None
+                break
+            if mm is not None:
+                out["violations"].append({"what": "free-run:" + mm.what, "seed": sd, "run_in_ensemble": k, "detail": mm.detail})
+                break
+            pos += used[0]
     return out
 
 
@@ -258,6 +288,11 @@ def main(argv=None):
         for v in r["violations"]:
             run.violation({"leg": "conformance", "what": v["what"]}, {"job": j[0], "violation": v})
     cruns = sum(r["runs"] for r in cres)
+    par = parallel_leg(quick)
+    for v in par["violations"]:
+        run.violation({"leg": "parallel-ensemble", "what": v["what"]}, {"job": v["job"], "detail": v["detail"]})
+    run.count("parallel ensembles (dask)", par["ensembles"])
+    run.count("parallel runs compared pairwise", par["runs"])
     run.count("conformance runs (real seeds)", cruns)
     run.count("conformance steps", sum(r["steps"] for r in cres))
     run.count("law entries compared", compared)
@@ -267,7 +302,8 @@ def main(argv=None):
                 "limits (0,N): breadth-first over all reachable states; at each the real firstReaction is called for every "
                 "ordering of the enabled clocks; the generator assembled from requested scales and observed successors is "
                 "compared (1e-9) with the multinomial occupancy law at t in %s and the SIR final-size law; free-running runs "
-                "with real seeds are replayed through the reference from their recorded draws" % (Ns, betas, gammas, times),
+                "with real seeds (ensembles of 3 runs per call: consecutive disjoint stretches of the draw stream) are replayed through the reference "
+                "from their recorded draws; ensembles produced with parallel=True must consist of pairwise different realisations" % (Ns, betas, gammas, times),
         "states": states, "transitions": trans, "traces_validated_against_impl": cruns,
         "max_abs_error_vs_closed_form": max(r["max_err"] for r in res),
     })
